@@ -240,6 +240,34 @@ def r16_4(ctx):
         ctx.ok("R16.4", "generator:ASBytesGenerator/ASHeaderGenerator._write_headers", "neither writer rewrites the header name/value inside the loop")
 
 
+def r16_4b(ctx):
+    """The text / bytes renderers try one generator and, when that raises on a header it cannot encode, a second one with a
+    more permissive policy.  The fallback is the same rendering under another policy: it is built with the same `headers`
+    and `mangle_from_` arguments.  (A fallback without `headers=headers` renders the body alone - SEARCH TEXT, RFC822.SIZE
+    and the literal then differ from what the first generator would have produced for the same message.)"""
+    p = ctx.p
+    n = 0
+    for key in ("generator._msg_as_string", "generator._msg_as_bytes", "generator.msg_as_string", "generator.msg_as_bytes"):
+        if key not in p.functions:
+            continue
+        fi = p.func(key)
+        gens = [c for c in calls_in(fi.node) if isinstance(c.func, ast.Name) and c.func.id.endswith("Generator")]
+        if len(gens) < 2:
+            continue
+        ctx.analysed(fi)
+        n += 1
+        sigs = []
+        for c in gens:
+            kw = {k.arg: norm(k.value) for k in c.keywords if k.arg not in ("policy",)}
+            sigs.append((c.func.id, tuple(norm(a) for a in c.args), tuple(sorted(kw.items()))))
+        if len(set(sigs)) == 1 and any("headers" in k for k, _ in sigs[0][2]):
+            ctx.ok("R16.4", where(fi), f"{len(gens)} generator constructions agree on everything but the policy: {sigs[0][0]}({', '.join(k + '=' + v for k, v in sigs[0][2])})")
+        else:
+            odd = next((c for c, s in zip(gens, sigs) if s != sigs[0]), gens[-1])
+            ctx.bad("R16.4", fi.module, fi.qual, norm(odd, 100), "the fallback generator is not built like the first one (same class, same `headers` / `mangle_from_`, only the policy differs): a message that needs the fallback is rendered without its headers (or with From-mangling) - SEARCH TEXT misses what is only in its header, sizes and literals differ from the other data items", odd.lineno)
+    ctx.floor("R16.4b", n, 1, "renderers with a fallback generator")
+
+
 def r16_5(ctx):
     from .common import pm_of
 
@@ -342,6 +370,7 @@ def run(ctx):
     ctx.do(r16_2)
     ctx.do(r16_3)
     ctx.do(r16_4)
+    ctx.do(r16_4b)
     ctx.do(r16_5)
     ctx.do(r16_6)
     from . import c08
